@@ -25,14 +25,15 @@ PROPS = {
     ),
     "C14": dict(
         title="The spill buffer behaves exactly like an in-memory buffer",
-        lean_modules=["Gowarc.Props.C14"],
+        lean_modules=["Gowarc.Props.C14", "Gowarc.Props.C14slice"],
+        audit_namespaces=["Gowarc.Props.C14"],
         n_quick=6000, n_thorough=40000,
-        required_theorems=["C14_refines", "C14_step", "C14_no_panic", "C14_slice_read", "C14_eof_sound"],
+        required_theorems=["C14_refines", "C14_step", "C14_no_panic", "C14_slice_read", "C14_slice_line", "C14_eof_sound"],
         model_assumptions=[
             "the OS file API (WriteAt/ReadAt/CreateTemp on the temp file) behaves as an append-only byte array",
             "WithMaxTotalBytes, WriteTo and read-only mode are outside the property and outside the model",
             "sources passed to ReadFrom follow the io.Reader contract (never (0, nil) forever)",
-            "slice line reads (Slice.ReadBytes) are covered by the correspondence only (no refinement theorem yet)",
+            "slice views: read, peek, size and line reads are proved (C14_slice_read, C14_slice_line); the operation-sequence theorem C14_refines is over the buffer itself",
         ],
         design_ref="DESIGN.md section 5, C14",
         level_text="Refinement theorem C14_refines: for every threshold >= 1 and every sequence of Write/ReadFrom/Read/Peek/ReadBytes/Seek(0)/Size "
